@@ -208,6 +208,7 @@ def run_property(args):
     samples = []
     per_contract = {}
     clause_status = {}
+    bounded_contracts = []
     for cid in cids:
         r = results.get(cid)
         if r is None:
@@ -227,12 +228,19 @@ def run_property(args):
             errors.append((cid, "zero obligations generated"))
         if r.normal_paths + r.exc_paths > 0 and not r.canary_ok and r.normal_paths > 0:
             errors.append((cid, "canary failed: no feasible normal exit (vacuous precondition?)"))
+        is_bounded = REGISTRY[cid].kind == "bounded"
+        if is_bounded:
+            bounded_contracts.append(dict(target=cid, bound=REGISTRY[cid].bounded or "; ".join(REGISTRY[cid].notes),
+                                          cases=len(r.obligations),
+                                          failed=sum(1 for o in r.obligations.values() if o.status != "discharged")))
         for (label, trace), ob in r.obligations.items():
-            total += 1
+            if not is_bounded:
+                total += 1
             key = f"{cid} :: {label}"
             st = clause_status.get(key, "discharged")
             if ob.status == "discharged":
-                discharged += 1
+                if not is_bounded:
+                    discharged += 1
             elif ob.status == "refuted":
                 refuted.append((cid, label, trace, ob, r.choices.get((label, trace), [])))
                 st = "refuted"
@@ -245,7 +253,7 @@ def run_property(args):
                 samples.append(f"{key} on path {list(trace)}: unsat in {ob.time:.3f}s")
 
     ex_total = ex_dis = 0
-    ex_viol, ex_undec, bounded = [], [], []
+    ex_viol, ex_undec, bounded = [], [], list(bounded_contracts)
     for e in extra:
         ex_total += e.get("obligations", 0)
         ex_dis += e.get("discharged", 0)
